@@ -27,7 +27,7 @@ RULE = ("hostile strings per decoder: valid URLs of every module mutated (trunca
 ASSUMPTIONS = ["allowed outcomes are exactly: None, ValueError, or a problem (statement of C17); everything else is a violation with the string as witness"]
 REQUIRED = ["c17.decodes", "c17.outcome.none", "c17.outcome.ValueError", "c17.outcome.problem", "c17.reencode_checked", "c17.mutated", "c17.random_text",
             "c17.unicode_text", "c17.large_boards", "c17.combinator_direct", "c17.non_url_text", "c17.zero_dim"]
-ALPHABET = "0123456789abcdefghijklmnopqrstuvwxyz.-+/?:_=%ABCXYZ "
+ALPHABET = "0123456789abcdefghijklmnopqrstuvwxyz.-+/?:_=%ABCXYZ " + "３٣²③₂५"  # incl. characters str.isdigit() / int() accept beyond ASCII
 HOME = os.environ.get("VERIF_HOME", "/verif")
 
 
